@@ -1,6 +1,6 @@
 (* Proofs about Model/ForkModel.v: the state cheatcodes are confined to the path that
    executed them, for every program tree. *)
-From Coq Require Import ZArith List Bool Lia.
+From Coq Require Import ZArith NArith List Bool Lia.
 From HV Require Import Gen.GenCheatSelectors Gen.GenCopies Model.CheatModel Model.ForkModel.
 Import ListNotations.
 Open Scope Z_scope.
@@ -182,6 +182,28 @@ Proof.
     + unfold ext; cbn. rewrite upd_length. repeat split; auto.
       intros i Hne Hl. apply nth_upd_other. congruence.
 Qed.
+
+(* every arm of hevm_cheat_code.handle listed in the regenerated table does what the model's
+   cheat for that selector does: exactly that attribute of the Block becomes the supplied word
+   (its low 160 bits where the source says uint160), nothing else of the world changes *)
+Theorem block_handlers_in_place : forall sel f trunc, In (sel, f, trunc) block_handlers -> forall w x,
+  exists c w' i,
+    cheat_of_selector sel x = Some c /\ do_cheat w c = SDone w' None /\ field_index f = Some i /\
+    blk_list w' = upd (blk_list w) i (if trunc then u160 x else x) /\
+    mw_balance w' = mw_balance w /\ mw_storage w' = mw_storage w /\ mw_code w' = mw_code w.
+Proof.
+  intros sel f trunc Hin w x. unfold block_handlers in Hin. cbn [In] in Hin.
+  repeat (destruct Hin as [Hin|Hin];
+          [inversion Hin; subst; clear Hin; eexists; eexists; eexists;
+           split; [reflexivity|split; [reflexivity|split; [reflexivity|repeat split]]]|]).
+  destruct Hin.
+Qed.
+
+Lemma block_handlers_cover :
+  forallb (fun s => existsb (fun e => N.eqb (fst (fst e)) s) block_handlers)
+          [fee_sig; chainid_sig; coinbase_sig; difficulty_sig; roll_sig; warp_sig] = true /\
+  length block_handlers = 6%nat.
+Proof. split; vm_compute; reflexivity. Qed.
 
 (* ---------------------------------------------------------------- create_branch *)
 Section Kinds.
